@@ -32,12 +32,12 @@ Qed.
 (* every binary64 number of magnitude <= 2^23 lies on a grid m * 2^c, -1074 <= c <= -1, |m| < 2^53,
    and the error term of a rounded sum is at most half a grid step *)
 Lemma grid s e : fmt s -> fmt e -> RN (s + e) = s -> Rabs s <= bp 23 ->
-  exists (c m : Z), (-1074 <= c <= -1)%Z /\ (Z.abs m < 2 ^ 53)%Z /\ s = IZR m * bp c /\ Rabs e <= bp (c - 1).
+  exists (c m : Z), (-1074 <= c <= -29)%Z /\ (Z.abs m < 2 ^ 53)%Z /\ s = IZR m * bp c /\ Rabs e <= bp (c - 1).
 Proof.
   intros Fs Fe H Hs.
   destruct (Req_dec s 0) as [->|Nz].
   - rewrite Rplus_0_l, (RN_id e Fe) in H. subst e.
-    exists (-1)%Z, 0%Z. repeat split; try lia. simpl; ring. rewrite Rabs_R0. apply bpow_ge_0.
+    exists (-29)%Z, 0%Z. repeat split; try lia. simpl; ring. rewrite Rabs_R0. apply bpow_ge_0.
   - set (c := cexp radix2 b64_exp s). set (m := Ztrunc (scaled_mantissa radix2 b64_exp s)).
     assert (Hmag : (mag radix2 s <= 24)%Z).
     { apply mag_le_bpow; [assumption|]. eapply Rle_lt_trans; [exact Hs|]. apply bpow_lt. lia. }
@@ -48,7 +48,7 @@ Proof.
       eapply Rlt_le_trans. apply scaled_mantissa_lt_bpow.
       fold c. change (IZR (2 ^ 53)) with (bp 53). apply bpow_le. lia.
     + exact Fs.
-    + pose proof (error_le_half_ulp_round radix2 b64_exp _ _ (fun t => negb (Z.even t)) (s + e)) as E.
+    + pose proof (error_le_half_ulp_round radix2 b64_exp (fun t => negb (Z.even t)) (s + e)) as E.
       fold (RN (s + e)) in E. rewrite H in E.
       rewrite ulp_neq_0 in E by assumption. fold c in E.
       replace (s - (s + e)) with (- e) in E by ring. rewrite Rabs_Ropp in E.
@@ -62,10 +62,13 @@ Proof.
   set (K := (radix2 ^ (- c - 1) - m + d * radix2 ^ (- c))%Z).
   assert (EK : / 2 - t = IZR K * bp c).
   { unfold K. rewrite plus_IZR, minus_IZR, mult_IZR, !IZR_Zpower by lia.
-    rewrite Et. rewrite !Rmult_plus_distr_r, Rmult_assoc.
-    unfold Rminus. rewrite Ropp_mult_distr_l_reverse || idtac.
-    rewrite <- !bpow_plus. replace (- c - 1 + c)%Z with (-1)%Z by lia. replace (- c + c)%Z with 0%Z by lia.
-    simpl. lra. }
+    assert (H1 : bp (- c - 1) * bp c = / 2).
+    { rewrite <- bpow_plus. replace (- c - 1 + c)%Z with (-1)%Z by lia. simpl. lra. }
+    assert (H2 : bp (- c) * bp c = 1).
+    { rewrite <- bpow_plus. replace (- c + c)%Z with 0%Z by lia. reflexivity. }
+    replace ((bp (- c - 1) - IZR m + IZR d * bp (- c)) * bp c)
+      with (bp (- c - 1) * bp c - IZR m * bp c + IZR d * (bp (- c) * bp c)) by ring.
+    rewrite H1, H2, Et. ring. }
   assert (U : 0 < bp c) by apply bpow_gt_0.
   assert (0 <= IZR K < 1).
   { split.
@@ -89,7 +92,7 @@ Lemma excess_R t e : fmt t -> fmt e -> Rabs t <= / 2 -> Rabs e <= bp (-30) ->
   exists x : Z,
     (if negb (Req_bool (RN (frac0 * sg)) (/ 2)) then IZR (ZnearestE frac0)
      else IZR (ZnearestE (RN (frac0 + RN (2 * check))))) = IZR x
-    /\ (x = 0 \/ (x = 1 /\ t + e > / 2) \/ (x = -1 /\ t + e < - / 2))%Z.
+    /\ (x = 0%Z \/ (x = 1%Z /\ t + e > / 2) \/ (x = (-1)%Z /\ t + e < - / 2)).
 Proof.
   intros Ft Fe Ht He frac0 check sg.
   assert (B30 : bp (-30) = / 1073741824) by (simpl; lra).
@@ -144,17 +147,103 @@ Proof.
   - (* ordinary case: excess = rint(frac) *)
     pose proof (Znearest_half (fun t => negb (Z.even t)) frac0) as N.
     pose proof (Znearest_range frac0 1 Hf) as R1.
-    set (x := ZnearestE frac0) in *. exists x. split; [reflexivity|].
+    remember (ZnearestE frac0) as x eqn:Ex. exists x. split; [reflexivity|].
     apply Rabs_le_inv in N.
-    assert (x = 0 \/ x = 1 \/ x = -1)%Z as [->|[->| ->]] by lia; [left; reflexivity| |].
+    assert (x = 0 \/ x = 1 \/ x = -1)%Z as [X|[X|X]] by lia; rewrite X in *; [left; reflexivity| |].
     + right; left. split; [reflexivity|].
       destruct (Rle_or_lt (t + e) (/ 2)) as [Le|Gt]; [|lra].
       exfalso. assert (frac0 <= / 2) by (apply RN_le_fmt; [apply fmt_half | exact Le]).
       assert (frac0 = / 2) by (simpl in N; lra).
-      unfold x in *. rewrite H0 in *. rewrite ZnearestE_half in *. simpl in N. lra.
+      rewrite H0, ZnearestE_half in Ex. discriminate.
     + right; right. split; [reflexivity|].
       destruct (Rle_or_lt (- / 2) (t + e)) as [Le|Gt]; [|lra].
       exfalso. assert (- / 2 <= frac0) by (apply RN_ge_fmt; [apply fmt_opp, fmt_half | exact Le]).
       assert (frac0 = - / 2) by (simpl in N; lra).
-      unfold x in *. rewrite H0 in *. rewrite ZnearestE_mhalf in *. simpl in N. lra.
+      rewrite H0, ZnearestE_mhalf in Ex. discriminate.
+Qed.
+
+(* day_frac from np.round on, applied to an exact pair (s, e), RN (s + e) = s, |s| <= 2^23 *)
+Lemma core_R s e : fmt s -> fmt e -> RN (s + e) = s -> Rabs s <= bp 23 ->
+  exists (dz : Z) (t' : R),
+    tc_day_frac_core R r_ops (s, e) = (IZR dz, RN (t' + e))
+    /\ s = IZR dz + t' /\ Rabs t' <= / 2 /\ Rabs e <= bp (-30) /\ (Z.abs dz <= 8388610)%Z.
+Proof.
+  intros Fs Fe H Hs.
+  destruct (grid s e Fs Fe H Hs) as (c & m & Hc & Hm & Es & He).
+  assert (B23 : bp 23 = 8388608) by (simpl; lra).
+  assert (He30 : Rabs e <= bp (-30)). { eapply Rle_trans; [exact He|]. apply bpow_le. lia. }
+  assert (Hec : Rabs e < bp c). { eapply Rle_lt_trans; [exact He|]. apply bpow_lt. lia. }
+  pose proof (Znearest_half (fun t => negb (Z.even t)) s) as N.
+  remember (ZnearestE s) as d0 eqn:Ed0.
+  set (t := s - IZR d0).
+  assert (Ht : Rabs t <= / 2) by exact N.
+  assert (Hd0 : (Z.abs d0 <= 8388609)%Z).
+  { apply Rabs_le_inv in N. apply Rabs_le_inv in Hs. apply Z.abs_le. split; apply le_IZR; simpl; lra. }
+  assert (Ft : fmt t).
+  { destruct (Rlt_or_le (Rabs s) (/ 2)) as [Small|Big].
+    - assert (d0 = 0%Z). { rewrite Ed0. apply Znearest_imp. simpl. rewrite Rminus_0_r. exact Small. }
+      unfold t. rewrite H0. simpl. rewrite Rminus_0_r. exact Fs.
+    - set (k := (m - d0 * radix2 ^ (- c))%Z).
+      assert (Ek : t = IZR k * bp c).
+      { unfold k, t. rewrite minus_IZR, mult_IZR, IZR_Zpower by lia. rewrite Es.
+        rewrite Rmult_minus_distr_r, Rmult_assoc, <- bpow_plus. replace (- c + c)%Z with 0%Z by lia. simpl. ring. }
+      rewrite Ek. apply fmt_ME; [|lia].
+      assert (U : 0 < bp c) by apply bpow_gt_0.
+      assert (Rabs (IZR k) <= Rabs (IZR m)).
+      { apply Rmult_le_reg_r with (bp c); [exact U|].
+        rewrite <- (Rabs_pos_eq (bp c)) by lra. rewrite <- !Rabs_mult. rewrite <- Ek, <- Es. lra. }
+      rewrite <- !abs_IZR in H0. apply le_IZR in H0. lia. }
+  unfold tc_day_frac_core. cbn [frint fsub fadd fmul feq r_ops].
+  rewrite <- Ed0. fold t. rewrite (RN_id t Ft).
+  rewrite (two_sum_R t e Ft Fe). rewrite tc_sign_R.
+  rewrite f_half_R, fz_R by (simpl; lia).
+  destruct (excess_R t e Ft Fe Ht He30) as (x & Ex & Hx).
+  cbv zeta in Ex. rewrite Ex. clear Ex.
+  apply Rabs_lt_inv in Hec.
+  assert (Hx' : x = 0%Z \/ (x = 1%Z /\ t = / 2) \/ (x = (-1)%Z /\ t = - / 2)).
+  { destruct Hx as [X|[[X G]|[X G]]]; [left; exact X | right; left | right; right]; (split; [exact X|]).
+    - apply (half_grid c m d0 t); [lia | unfold t; rewrite Es; reflexivity | apply Rabs_le_inv in Ht; lra | lra].
+    - assert (- t = / 2); [|lra].
+      apply (half_grid c (- m) (- d0) (- t)); [lia | unfold t; rewrite Es, !opp_IZR; ring | apply Rabs_le_inv in Ht; lra | lra]. }
+  rewrite <- plus_IZR. rewrite (RN_Z (d0 + x)).
+  2:{ change (2 ^ 53)%Z with 9007199254740992%Z. destruct Hx' as [X|[[X _]|[X _]]]; rewrite X; lia. }
+  exists (d0 + x)%Z, (t - IZR x).
+  assert (E1 : s - IZR (d0 + x) = t - IZR x) by (rewrite plus_IZR; unfold t; ring).
+  rewrite E1.
+  assert (F1 : fmt (t - IZR x) /\ Rabs (t - IZR x) <= / 2).
+  { destruct Hx' as [X|[[X T]|[X T]]]; rewrite X.
+    - simpl. rewrite Rminus_0_r. split; assumption.
+    - rewrite T. replace (/ 2 - 1) with (- / 2) by lra. split; [apply fmt_opp, fmt_half|]. rewrite Rabs_Ropp, Rabs_pos_eq; lra.
+    - rewrite T. replace (- / 2 - -1) with (/ 2) by lra. split; [apply fmt_half|]. rewrite Rabs_pos_eq; lra. }
+  destruct F1 as [F1 F2]. rewrite (RN_id _ F1).
+  repeat split; try assumption.
+  - rewrite plus_IZR. unfold t. ring.
+  - destruct Hx' as [X|[[X _]|[X _]]]; rewrite X; lia.
+Qed.
+
+(* day_frac(v1, v2) and day_frac(v1, v2, divisor=1.0): integral day, day + frac = v1 + v2 up to 2^-54 *)
+Lemma day_frac_R v1 v2 : fmt v1 -> fmt v2 -> Rabs (v1 + v2) <= bp 23 ->
+  exists (dz : Z) (fr : R),
+    tc_day_frac R r_ops v1 v2 = (IZR dz, fr) /\ tc_day_frac_div R r_ops v1 v2 1 = (IZR dz, fr)
+    /\ fmt fr /\ Rabs fr <= 1 /\ Rabs (IZR dz + fr - (v1 + v2)) <= bp (-54) /\ (Z.abs dz <= 8388610)%Z.
+Proof.
+  intros F1 F2 Hb.
+  assert (B23 : bp 23 = 8388608) by (simpl; lra).
+  assert (B30 : bp (-30) = / 1073741824) by (simpl; lra).
+  unfold tc_day_frac, tc_day_frac_div. rewrite (two_sum_R v1 v2 F1 F2).
+  set (s := RN (v1 + v2)). set (e := v1 + v2 - s).
+  assert (Fs : fmt s) by apply RN_fmt.
+  assert (Fe : fmt e).
+  { (* the error term is the second output of two_sum, hence a float *)
+    pose proof (two_sum_R v1 v2 F1 F2) as T. unfold tc_two_sum in T. cbn [fadd fsub r_ops] in T.
+    injection T as T. unfold e, s. rewrite <- T. apply RN_fmt. }
+  assert (Hse : RN (s + e) = s). { unfold e. replace (s + (v1 + v2 - s)) with (v1 + v2) by ring. reflexivity. }
+  assert (Hs : Rabs s <= bp 23).
+  { unfold s. apply RN_abs_le; [|exact Hb]. apply generic_format_bpow. unfold b64_exp, FLT_exp. lia. }
+  rewrite (divide_one s e Fs Fe Hse).
+  destruct (core_R s e Fs Fe Hse Hs) as (dz & t' & Ec & Es & Ht' & He & Hdz).
+  exists dz, (RN (t' + e)). repeat split; try assumption; try apply RN_fmt.
+  - apply RN_abs_le; [apply fmt_1|]. eapply Rle_trans. apply Rabs_triang. lra.
+  - replace (IZR dz + RN (t' + e) - (v1 + v2)) with (RN (t' + e) - (t' + e)) by (unfold e; rewrite Es; ring).
+    apply (RN_err (t' + e) 0); [lia|]. simpl. eapply Rle_trans. apply Rabs_triang. lra.
 Qed.
